@@ -142,7 +142,7 @@ example :
       intro t ht; simp only [List.mem_cons, List.not_mem_nil, or_false] at ht
       rcases ht with rfl | rfl <;> exact ⟨by decide, by decide⟩
     · exact .cons _ _ (StmtSkel.WFS.retSome _ (.bin _ 8 _ _ _ _ (by decide) (by omega) (.id _ _)
-        (.pre _ _ _ _ (by omega) (by decide) (.id _ _)))) .nil
+        (.pre _ _ _ _ (by omega) (by decide) (.id _ _) (fun _ => rfl)))) .nil
   exact parse_translation_unit prog hw 200 (by decide)
 
 end PycModel.C01
